@@ -24,14 +24,32 @@ META = {
 }
 
 
+def _is_get(e):
+    return isinstance(e, ast.Call) and isinstance(e.func, ast.Attribute) and e.func.attr == "get" and 1 <= len(e.args) <= 2
+
+
 def rooted_at_param(fn, e, params, node=None):
-    while isinstance(e, (ast.Attribute, ast.Subscript)):
-        e = e.value
+    """is *e* the parameter or something looked up in it (p[k], p.get(k), through locals)?"""
+    while isinstance(e, (ast.Attribute, ast.Subscript)) or _is_get(e):
+        e = e.func.value if _is_get(e) else e.value
     if isinstance(e, ast.Name):
         srcs = value_sources(fn, e, node)
         return any(k == "param" and p in params for k, p in srcs) or any(
-            k == "expr" and isinstance(pl, ast.Subscript) and rooted_at_param(fn, pl, params) for k, pl in srcs)
+            k == "expr" and (isinstance(pl, ast.Subscript) or _is_get(pl)) and rooted_at_param(fn, pl, params) for k, pl in srcs)
     return False
+
+
+def lookup_key(fn, e, node=None):
+    """the key expression of `X[k]` / `X.get(k)`, following one local"""
+    if isinstance(e, ast.Subscript):
+        return e.slice
+    if _is_get(e):
+        return e.args[0]
+    if isinstance(e, ast.Name):
+        srcs = value_sources(fn, e, node)
+        if len(srcs) == 1 and srcs[0][0] == "expr" and (isinstance(srcs[0][1], ast.Subscript) or _is_get(srcs[0][1])):
+            return lookup_key(fn, srcs[0][1])
+    return None
 
 
 def check(ctx):
@@ -245,8 +263,8 @@ def check(ctx):
                    "a nested scope is processed before this scope's includes were merged: includes inside an included sub-tree are missed", node=r)
         par = getattr(r.ast, "_parent", None)
         stored = isinstance(par, ast.Assign) and any(isinstance(t, ast.Subscript) and isinstance(t.value, ast.Name) and t.value.id == tparam for t in par.targets)
-        samekey = stored and len(r.ast.args) >= 2 and isinstance(r.ast.args[1], ast.Subscript) and \
-            ast.unparse(par.targets[0].slice) == ast.unparse(r.ast.args[1].slice)
+        lk = lookup_key(pi, r.ast.args[1], r) if len(r.ast.args) >= 2 else None
+        samekey = stored and lk is not None and ast.unparse(par.targets[0].slice) == ast.unparse(lk) and rooted_at_param(pi, r.ast.args[1], {tparam}, r)
         ctx.ob("nested.stored-back", pi, r.ast, bool(samekey), "the nested result replaces the nested tree under the same key" if samekey else
                "the result of processing a nested scope is not stored back under its key", node=r)
         oks = len(r.ast.args) >= 1 and any(k == "iter" for k, _ in value_sources(pi, r.ast.args[0], r))
@@ -256,3 +274,28 @@ def check(ctx):
         ctx.ob("returns-tree", pi, r.ast, okr, "returns the merged tree" if okr else "_process_includes does not return the merged tree", node=r)
     from .paths import check_filename_resolution
     check_filename_resolution(ctx)
+
+    # ---------------------------------------------------------------- C18.5 included files are parsed like the including document
+    loads_fn = model.method("Config", "loads")
+    kw = loads_fn.node.args.kwarg.arg if loads_fn.node.args.kwarg else None
+    fparam = loads_fn.positional_params[2] if len(loads_fn.positional_params) > 2 else None
+    ctx.need(kw is not None and fparam is not None, "Config.loads lost its format / **options parameters")
+    nget = 0
+    for x in ast.walk(loads_fn.node):
+        if not isinstance(x, ast.Call):
+            continue
+        args, kws = None, None
+        if ast.unparse(x.func).endswith("ConfigFormat.get"):
+            args, kws = x.args, x.keywords
+        elif ast.unparse(x.func).endswith("partial") and x.args and ast.unparse(x.args[0]).endswith("ConfigFormat.get"):
+            args, kws = x.args[1:], x.keywords
+        if args is None:
+            continue
+        nget += 1
+        has_fmt = bool(args) and isinstance(args[0], ast.Name) and args[0].id == fparam
+        has_opts = any(k.arg is None and isinstance(k.value, ast.Name) and k.value.id == kw for k in kws)
+        ctx.ob("includes.same-format-options", loads_fn, x, has_fmt and has_opts,
+               "the formatter is built from the caller's format and options" if has_fmt and has_opts else
+               "a formatter is built %s: included files are parsed differently from the document that names them" % (
+                   "without the caller's format options" if has_fmt else "for another format"))
+    ctx.need(nget >= 1, "Config.loads no longer obtains a formatter from ConfigFormat.get")
